@@ -101,6 +101,11 @@ namespace BitSerializer
 			KeyValueProxy::SplitAndSerialize(archive, std::forward<T>(object));
 			archive.Finalize();
 			context.OnFinishSerialization();
+
+			// A failed write only sets the state of the stream (unless it has an exception mask), report it to the caller
+			if (output.fail()) {
+				throw SerializationException(SerializationErrorCode::InputOutputError, "Failed to write to the output stream");
+			}
 		}
 	}
 
